@@ -16,6 +16,7 @@ PROPS = {
     },
     "C05": {
         "vx": ["smt_sorts"],
+        "kl": ["smt_ident"],
         "ax": True,
         "level": "proof",
     },
